@@ -20,13 +20,15 @@ package main
 // trace the Lean model computes from the same read results and transport verdicts.
 
 import (
-	"errors"
 	"bytes"
+	"errors"
 	"fmt"
 	"io"
 	"net"
 	"os"
+	"runtime"
 	"strconv"
+	"strings"
 	"sync"
 	"sync/atomic"
 	"testing"
@@ -89,9 +91,13 @@ type c04SegConn struct {
 	// outside [hsMin, hsMax] is refused locally (nothing is sent) so that the caller can draw again
 	hsMin, hsMax int
 	hsLen        int
+	// called once, just before the first byte is put on the wire: the station's handler (and with it the
+	// real 5-10 s classification deadline) is started only now, not while handshakes are still being drawn
+	onFirst func()
 }
 
 var errC04HsLen = errors.New("verif: handshake length outside the wanted range")
+var errC04NoHandshake = errors.New("verif: no handshake of the wanted length was drawn")
 
 func c04Resolve(cuts []int, flightLen, total int, extra []int) []int {
 	seen := map[int]bool{}
@@ -141,6 +147,9 @@ func (s *c04SegConn) Write(p []byte) (int, error) {
 		}
 		s.first = false
 		s.hsLen = len(p)
+		if s.onFirst != nil {
+			s.onFirst()
+		}
 		if err := s.emit(p, len(p), nil); err != nil {
 			return 0, err
 		}
@@ -178,6 +187,60 @@ type c04Result struct {
 	exists     bool
 	handlerErr string
 	clientErr  string
+	hung       bool // the handler goroutine never returned (it is abandoned; the world is not used again)
+}
+
+// c04AwaitHandler waits for the handler to return after the client side is gone. A handler that has not
+// returned 30 s later gets its connection closed under it; if even that does not end it within 5 s it is
+// blocked on something that is not the connection (a lock): the goroutine is abandoned and reported
+// with its stack.
+func c04AwaitHandler(w *c34World, done chan struct{}, closeConn func(), res *c04Result) {
+	select {
+	case <-done:
+		return
+	case <-time.After(30 * time.Second):
+	}
+	res.handlerErr = "handler did not return within 30 s after the client closed"
+	closeConn()
+	select {
+	case <-done:
+	case <-time.After(5 * time.Second):
+		res.hung = true
+		res.handlerErr = "handler blocked for good (not on the connection, which was closed under it): " + c04HandlerStack()
+		w.dead = res.handlerErr
+	}
+}
+
+// c04HandlerStack: the frames of the goroutine(s) that sit in handleNewTCPConn
+func c04HandlerStack() string {
+	buf := make([]byte, 1<<20)
+	buf = buf[:runtime.Stack(buf, true)]
+	var out []string
+	for _, g := range strings.Split(string(buf), "\n\n") {
+		if !strings.Contains(g, "handleNewTCPConn") {
+			continue
+		}
+		var fr []string
+		for _, l := range strings.Split(g, "\n") {
+			if l != "" && l[0] != '\t' && !strings.HasPrefix(l, "created by") {
+				if i := strings.LastIndexByte(l, '('); i > 0 && !strings.HasPrefix(l, "goroutine ") {
+					l = l[:i]
+				}
+				if j := strings.LastIndexByte(l, '/'); j >= 0 {
+					l = l[j+1:]
+				}
+				fr = append(fr, l)
+			}
+			if len(fr) >= 8 {
+				break
+			}
+		}
+		out = append(out, strings.Join(fr, " < "))
+		if len(out) >= 2 {
+			break
+		}
+	}
+	return strings.Join(out, " || ")
 }
 
 var c04Remote = &net.TCPAddr{IP: net.IPv4(203, 0, 113, 7), Port: 50123}
@@ -205,7 +268,13 @@ func c04RunScript(w *c34World, reg *c34Reg, j *c04Job, app []byte) (*c04Result, 
 				extra = append(extra, n)
 			}
 		}
+		// now and then a read that returns no bytes and no error between two segments (the theorem covers
+		// empty reads; a loop that gives up on n == 0 must not pass)
+		zr := vlib.NewRand(fmt.Sprintf("C04/zero-reads/%d", j.seed))
 		for _, ch := range c34Cut(S, c04Resolve(j.cuts, len(flight), len(S), extra)) {
+			if len(evs) > 0 && zr.Chance(1, 20) {
+				evs = append(evs, c34Ev{kind: "d"})
+			}
 			evs = append(evs, c34Ev{kind: "d", data: ch})
 		}
 		off := j.early
@@ -226,14 +295,8 @@ func c04RunScript(w *c34World, reg *c34Reg, j *c04Job, app []byte) (*c04Result, 
 	case <-done:
 	}
 	close(conn.finish)
-	select {
-	case <-done:
-	case <-time.After(30 * time.Second):
-		res.handlerErr = "handler did not return within 30 s after the client closed"
-		conn.Close()
-		<-done
-	}
-	if run.panicked != nil {
+	c04AwaitHandler(w, done, func() { conn.Close() }, res)
+	if !res.hung && run.panicked != nil {
 		res.handlerErr = fmt.Sprint("panic: ", run.panicked)
 	}
 	res.clientGot = conn.writtenCopy()
@@ -265,16 +328,27 @@ func c04RunPipe(w *c34World, reg *c34Reg, j *c04Job, app []byte) (*c04Result, er
 		return nil, err
 	}
 	a, b := net.Pipe()
-	cj.VerifC34ResetUnused(w.rm, reg.reg)
 	conn := newC34Real(b, c34Peer(50123))
-	run, done := w.start(conn, reg.phantom, "ok")
-	_ = a.SetDeadline(time.Now().Add(20 * time.Second))
-	seg := &c04SegConn{Conn: a, cuts: j.cuts, natural: j.natural, delay: time.Duration(j.delayUs) * time.Microsecond, hsMin: j.hsMin, hsMax: j.hsMax}
+	// The handler — and with it the station's real 5-10 s classification deadline — starts when the first
+	// byte is about to go on the wire: an obfs4 client may first have to draw hundreds of handshakes
+	// until one has the wanted length, which must not eat into that deadline.
+	var run *c34Run
+	var done chan struct{}
+	var startOnce sync.Once
+	startHandler := func() {
+		startOnce.Do(func() {
+			cj.VerifC34ResetUnused(w.rm, reg.reg)
+			_ = a.SetDeadline(time.Now().Add(20 * time.Second))
+			run, done = w.start(conn, reg.phantom, "ok")
+		})
+	}
+	seg := &c04SegConn{Conn: a, cuts: j.cuts, natural: j.natural, delay: time.Duration(j.delayUs) * time.Microsecond, hsMin: j.hsMin, hsMax: j.hsMax, onFirst: startHandler}
 	obfs := reg.tt == pb.TransportType_Obfs4
 	if obfs {
 		seg.first = true
 	} else {
 		seg.hold = true
+		startHandler() // min / prefix: nothing is drawn, the flight is written at once
 	}
 	var cwg sync.WaitGroup
 	cwg.Add(1)
@@ -324,14 +398,12 @@ func c04RunPipe(w *c34World, reg *c34Reg, j *c04Job, app []byte) (*c04Result, er
 		<-rdone
 	}()
 	cwg.Wait()
-	select {
-	case <-done:
-	case <-time.After(30 * time.Second):
-		res.handlerErr = "handler did not return within 30 s after the client closed"
+	if run == nil {
 		b.Close()
-		<-done
+		return nil, errC04NoHandshake
 	}
-	if run.panicked != nil {
+	c04AwaitHandler(w, done, func() { b.Close() }, res)
+	if !res.hung && run.panicked != nil {
 		res.handlerErr = fmt.Sprint("panic: ", run.panicked)
 	}
 	c04Collect(w, reg, run, res)
@@ -350,6 +422,10 @@ func c04Check(out *vlib.Out, w *c34World, reg *c34Reg, j *c04Job, app []byte, re
 			what, detail, j.client, tn, reg.prefixID, reg.flush, reg.randPort, reg.phantom, j.mode, j.early, j.later, j.cuts), rp)
 	}
 	out.Checked()
+	if res.hung {
+		fail("handler-hung", res.handlerErr)
+		return
+	}
 	if res.handlerErr != "" {
 		fail("handler", res.handlerErr)
 		return
@@ -385,6 +461,16 @@ var (
 	// couple of dozen the generator stops, so that the run ends and its findings are written out
 	c04Slow atomic.Int32
 )
+
+func c04Failed() bool {
+	c04FailMu.Lock()
+	defer c04FailMu.Unlock()
+	return len(c04Fails) > 0
+}
+
+// c04GiveUp: the generator may stop early only when the run already has an oracle failure to report (a
+// tunnel that stalls makes every further case take seconds); slowness alone never reduces coverage.
+func c04GiveUp() bool { return c04Slow.Load() >= 24 && c04Failed() }
 
 func c04Diff(got, want []byte) string {
 	n := 0
@@ -427,6 +513,10 @@ func c04RunJob(out *vlib.Out, w *c34World, clients []*c34Reg, j *c04Job) error {
 		res, err = c04RunPipe(w, reg, j, app)
 	} else {
 		res, err = c04RunScript(w, reg, j, app)
+	}
+	if errors.Is(err, errC04NoHandshake) {
+		out.Count("obfs4:no-handshake-of-the-wanted-length-drawn")
+		return nil
 	}
 	if err != nil {
 		return err
@@ -474,6 +564,8 @@ func TestVerifC04(t *testing.T) {
 	nW := 12
 	jobs := make(chan c04Job, 256)
 	var wg sync.WaitGroup
+	var live atomic.Int32 // worlds whose handlers all returned so far
+	live.Store(int32(nW))
 	errs := make(chan error, nW)
 	// every world registers the same structure of clients (its own secrets)
 	probe, err := newC34World("C04/0", "127.0.0.1")
@@ -500,9 +592,24 @@ func TestVerifC04(t *testing.T) {
 					return
 				}
 			}
-			for j := range jobs {
-				if c04Slow.Load() >= 24 {
-					out.Count("skipped-after-24-slow-cases")
+			for {
+				if w.dead != "" {
+					// a handler of this world never returned: its connection manager cannot be used any more.
+					// The other worlds take over its share; the last one standing drains the queue.
+					if live.Add(-1) > 0 {
+						return
+					}
+					for range jobs {
+						out.Count("skipped:every-world-has-a-hung-handler")
+					}
+					return
+				}
+				j, ok := <-jobs
+				if !ok {
+					return
+				}
+				if c04GiveUp() {
+					out.Count("skipped-after-24-slow-cases-and-an-oracle-failure")
 					continue
 				}
 				j.world = wi
@@ -539,8 +646,8 @@ func TestVerifC04(t *testing.T) {
 	}
 	emit := func(j c04Job) {
 		j.seed = r.U64()
-		if c04Slow.Load() >= 24 {
-			out.Count("skipped-after-24-slow-cases")
+		if c04GiveUp() {
+			out.Count("skipped-after-24-slow-cases-and-an-oracle-failure")
 			return
 		}
 		jobs <- j
